@@ -522,7 +522,7 @@ func typeSwitched(prm *ssa.Parameter) bool {
 
 func init() {
 	register(&Rule{ID: "P-NO-LIBPARSE", Props: []string{"C04", "C16", "C11", "C08"}, Floor: 1,
-		Doc: "Who-may-call: the decoders of quoted identifiers, raw strings and JSON literals (and their helpers; a JSON literal is decoded by encoding/json alone) never hand a piece of the literal to a general-purpose library parser (strconv.ParseInt/ParseUint/ParseFloat/Atoi/Unquote*, fmt.Sscan*): those accept spellings the grammar does not (a sign, an underscore, a base prefix, surrounding space), so an escape such as \\u+041 would be decoded instead of rejected. Hex digits are decoded by comparing characters (P-CHARCLASS).",
+		Doc: "Who-may-call: the decoders of quoted identifiers, raw strings and JSON literals (and their helpers; a JSON literal is decoded by encoding/json alone) never hand a piece of the literal to a general-purpose library parser (strconv.ParseInt/ParseFloat/Atoi/Unquote*, ParseUint with base 0, fmt.Sscan*): those accept spellings the grammar does not (a sign, an underscore, a base prefix, surrounding space); strconv.ParseUint with a constant base accepts digits only and is interpreted by P-DECODE, so an escape such as \\u+041 would be decoded instead of rejected. Hex digits are decoded by comparing characters (P-CHARCLASS).",
 		Run: rulePNoLibParse})
 }
 
@@ -560,6 +560,13 @@ func rulePNoLibParse(p *Program, r *Reporter) {
 					continue
 				}
 				n := calleeFullName(c.Common())
+				if n == "strconv.ParseUint" && len(c.Common().Args) == 3 {
+					// with a constant base other than 0 ParseUint accepts the digits of that base and nothing else (no
+					// sign, no prefix, no underscore): what it decodes is decided by P-DECODE like a hand-written loop
+					if bc, ok := c.Common().Args[1].(*ssa.Const); ok && bc.Value != nil && bc.Int64() != 0 {
+						continue
+					}
+				}
 				if strings.HasPrefix(n, "strconv.Parse") || n == "strconv.Atoi" || strings.HasPrefix(n, "strconv.Unquote") || strings.HasPrefix(n, "fmt.Sscan") || strings.HasPrefix(n, "fmt.Fscan") {
 					r.Bad(instrPos(in), name+" calls "+n, "a general-purpose parser decides what the literal means: it accepts signs, underscores, prefixes or spaces that the grammar's escape syntax does not")
 					bad = true
